@@ -2,7 +2,7 @@
    N / Z / positive stay the extracted inductive types (values reach 2^64). *)
 From Coq Require Import String.
 From Coq Require Extraction ExtrOcamlBasic.
-From P2PV Require Import Lib.Base Run.RunC15 Run.RunCache Run.RunC20.
+From P2PV Require Import Lib.Base Run.RunC15 Run.RunCache Run.RunC20 Run.RunC17.
 Open Scope N_scope.
 
 Definition run (prop : list N) (case obs : sx) : sx :=
@@ -10,6 +10,7 @@ Definition run (prop : list N) (case obs : sx) : sx :=
   else if bytes_eqb prop (sym_of_string "C18") then run_cache case obs
   else if bytes_eqb prop (sym_of_string "C19") then run_cache case obs
   else if bytes_eqb prop (sym_of_string "C20") then run_C20 case obs
+  else if bytes_eqb prop (sym_of_string "C17") then run_C17 case obs
   else bad_case.
 
 Extraction Language OCaml.
